@@ -412,7 +412,7 @@ func Run(tier string) int {
 	}
 	// aligned documents (aligned.go); first, so that a run capped by the deadline has explored them
 	padMax := ev.Pick(r, 1100, 2200)
-	r.Dim("aligned_documents", fmt.Sprintf("pad 0..%d, every cut from the end of the pad to the end of the file; %d streams with indirect /Length + %d integer objects", padMax, alignedStreams, alignedInts))
+	r.Dim("aligned_documents", fmt.Sprintf("pad 0..%d, cuts within 80 bytes of a multiple of 1024 or 2 bytes of an object end, and the whole file; %d streams with indirect /Length + %d integer objects", padMax, alignedStreams, alignedInts))
 	r.Par(padMax+1, func(p int) {
 		if r.Expired() {
 			return
